@@ -65,7 +65,7 @@ def plan(ctx):
     n = 2000 if ctx.tier != 'thorough' else 60000
     cases = []
     for i in range(n):
-        cases.append(pools.gen_pool_case(ctx, rng, i, 'random', retry=True, directed_late=(i % 4 == 3), enqueue_fn_ok=(i % 4 != 3)))
+        cases.append(pools.gen_pool_case(ctx, rng, i, 'random', retry=True, directed_late=(i % 4 == 3), double_death=(i % 8 == 2), enqueue_fn_ok=(i % 4 != 3 and i % 8 != 2)))
         if len(cases) >= 2000:
             ctx.run(cases, 'pool-runs')
             cases = []
